@@ -11,6 +11,7 @@
  *       bit4 hold: programs and their code stay alive until the end (code memory has to grow by new regions)
  *       bit5 2-D: the program is two-dimensional (3 rows, stride 128 bytes)
  *       bit6 general-register exhaustion: 4 destinations + 8 sources, two of them read by resampling loads (d1 = s1 + s2 as in kind 0)
+ *       bit7 the program-attached executor is created before the program is compiled (it must still follow the program to whatever the compile produced)
  *       reps (number of compile/run repetitions)
  * Prints one JSON line.
  */
@@ -135,7 +136,7 @@ static OrcProgram *make_program (int kind)
 int main (int argc, char **argv)
 {
   int variant = argc > 1 ? atoi (argv[1]) : 0, reps = argc > 2 ? atoi (argv[2]) : 1, r;
-  int with_backup = variant & 1, code_only = (variant >> 1) & 1, kind = (variant >> 2) & 3, hold = (variant >> 4) & 1, twod = (variant >> 5) & 1, gpx = (variant >> 6) & 1, nheld = 0, held_reruns = 0;
+  int with_backup = variant & 1, code_only = (variant >> 1) & 1, kind = (variant >> 2) & 3, hold = (variant >> 4) & 1, twod = (variant >> 5) & 1, gpx = (variant >> 6) & 1, early_ex = (variant >> 7) & 1, nheld = 0, held_reruns = 0;
   static OrcProgram *held_p[MAXHELD]; static OrcCode *held_c[MAXHELD];
   const char *plan = getenv ("FAULT_PLAN");
   int calls_after_init, fds0 = -1, fds_early = -1, fds_end = -1, mismatches = 0, native_runs = 0, backup_bad = 0, emu_runs = 0, no_orccode = 0;
@@ -157,6 +158,7 @@ int main (int argc, char **argv)
     int i, before, n = kind == 3 ? 12 : 50;
     if (twod) orc_program_set_2d (p);
     if (with_backup) orc_program_set_backup_function (p, backup_fn);
+    ex = early_ex ? orc_executor_new (p) : NULL;   /* bit7: the executor is bound to the program before the program is compiled */
     res = orc_program_compile (p);
     if (kind == 3) {
       /* history: the program had native code; it is compiled again for a target that has no rule for it; the chunk it
@@ -169,9 +171,9 @@ int main (int argc, char **argv)
       orc_program_compile (q);
     }
     results[ORC_COMPILE_RESULT_IS_SUCCESSFUL (res) ? 0 : ORC_COMPILE_RESULT_IS_FATAL (res) ? 2 : 1]++;
-    if (ORC_COMPILE_RESULT_IS_FATAL (res) || !p->orccode) { no_orccode++; orc_program_free (p); if (q) orc_program_free (q); continue; }
+    if (ORC_COMPILE_RESULT_IS_FATAL (res) || !p->orccode) { no_orccode++; if (ex) orc_executor_free (ex); orc_program_free (p); if (q) orc_program_free (q); continue; }
     for (i = 0; i < 256; i++) { a[i] = (short) (i * 517 - 9000 + r); b[i] = (short) (i * 33 + 5); dn[i] = de[i] = 0x1111; }
-    ex = orc_executor_new (p);
+    if (!ex) ex = orc_executor_new (p);
     orc_executor_set_n (ex, n); orc_executor_set_array (ex, ORC_VAR_S1, a); orc_executor_set_array (ex, ORC_VAR_S2, b);
     if (twod) { orc_executor_set_m (ex, 3); orc_executor_set_stride (ex, ORC_VAR_S1, 128); orc_executor_set_stride (ex, ORC_VAR_S2, 128); orc_executor_set_stride (ex, ORC_VAR_D1, 128); }
     orc_executor_set_array (ex, ORC_VAR_D1, de);
